@@ -1,0 +1,108 @@
+//go:build verif
+
+package gojq
+
+// Verification hook (add-only, compiled only with -tags verif): exposes the token stream of the
+// unexported lexer.  The lexer is driven the way yyParse drives it: Lex is called until it returns eof,
+// and the one piece of parser feedback, the action of
+//
+//	stringparts : stringparts tokStringQuery query ')'   { yylex.(*lexer).inString = true ... }
+//
+// (a default reduction taken right after the ')' that closes a string interpolation, before the next
+// Lex call) is applied after the ')' matching each tokStringQuery.  After every call the hook also
+// records what (*lexer).Error would report at that point.
+
+// VerifToken is one Lex call.
+type VerifToken struct {
+	Kind      int    // value returned by Lex
+	Name      string // "eof", "" for a byte returned as int(ch), otherwise the goyacc constant name
+	Token     string // l.token after the call
+	Offset    int    // l.offset after the call
+	Before    bool   // l.inString when Lex was called
+	InString  bool   // l.inString after the call (before the parser feedback)
+	ErrOffset int    // ParseError.Offset if the parser rejected this token
+	ErrToken  string // ParseError.Token if the parser rejected this token
+}
+
+var verifTokNames = map[int]string{
+	eof:                      "eof",
+	tokAltOp:                 "tokAltOp",
+	tokUpdateOp:              "tokUpdateOp",
+	tokDestAltOp:             "tokDestAltOp",
+	tokCompareOp:             "tokCompareOp",
+	tokOrOp:                  "tokOrOp",
+	tokAndOp:                 "tokAndOp",
+	tokModule:                "tokModule",
+	tokImport:                "tokImport",
+	tokInclude:               "tokInclude",
+	tokDef:                   "tokDef",
+	tokAs:                    "tokAs",
+	tokLabel:                 "tokLabel",
+	tokBreak:                 "tokBreak",
+	tokNull:                  "tokNull",
+	tokTrue:                  "tokTrue",
+	tokFalse:                 "tokFalse",
+	tokIf:                    "tokIf",
+	tokThen:                  "tokThen",
+	tokElif:                  "tokElif",
+	tokElse:                  "tokElse",
+	tokEnd:                   "tokEnd",
+	tokTry:                   "tokTry",
+	tokCatch:                 "tokCatch",
+	tokReduce:                "tokReduce",
+	tokForeach:               "tokForeach",
+	tokIdent:                 "tokIdent",
+	tokVariable:              "tokVariable",
+	tokModuleIdent:           "tokModuleIdent",
+	tokModuleVariable:        "tokModuleVariable",
+	tokRecurse:               "tokRecurse",
+	tokIndex:                 "tokIndex",
+	tokNumber:                "tokNumber",
+	tokFormat:                "tokFormat",
+	tokString:                "tokString",
+	tokStringStart:           "tokStringStart",
+	tokStringQuery:           "tokStringQuery",
+	tokStringEnd:             "tokStringEnd",
+	tokInvalid:               "tokInvalid",
+	tokInvalidEscapeSequence: "tokInvalidEscapeSequence",
+	tokUnterminatedString:    "tokUnterminatedString",
+}
+
+// VerifLex returns the Lex calls on src up to and including the first eof (goyacc's yylex1 takes every
+// value <= 0 as the end of input, so a NUL byte returned as int(ch) ends the stream as well).
+func VerifLex(src string) (toks []VerifToken) {
+	defer func() {
+		if r := recover(); r != nil { // a crashing lexer is reported as a token of its own
+			toks = append(toks, VerifToken{Kind: -2, Name: "panic"})
+		}
+	}()
+	l := newLexer(src)
+	var stack []bool // open parentheses: true = opened by tokStringQuery
+	for n := 0; n <= len(src)+1; n++ {
+		var lval yySymType
+		before := l.inString
+		k := l.Lex(&lval)
+		l.Error("")
+		pe := l.err.(*ParseError)
+		l.err = nil
+		toks = append(toks, VerifToken{Before: before, Kind: k, Name: verifTokNames[k], Token: l.token, Offset: l.offset,
+			InString: l.inString, ErrOffset: pe.Offset, ErrToken: pe.Token})
+		if k <= 0 {
+			break
+		}
+		switch k {
+		case tokStringQuery:
+			stack = append(stack, true)
+		case '(':
+			stack = append(stack, false)
+		case ')':
+			if n := len(stack); n > 0 {
+				if stack[n-1] {
+					l.inString = true
+				}
+				stack = stack[:n-1]
+			}
+		}
+	}
+	return toks
+}
